@@ -22,7 +22,7 @@ func init() {
 			"R4": "per-hand reset: must-store set in the standby function, per-player reset over the full player list",
 			"R5": "closed / released tested before pause, next-hand set-up and open; the close operation records closed and released unconditionally, the release operation records released, a new engine is not released",
 			"R6": "blind guards in the open step (is-set, not breaking; distinct errors); the predicates are asked of the live level (State.BlindState); the blinds-set predicate is Level != 0 ∧ no amount unset; a table created paused for a break is not overwritten by a later status store of the creating function",
-			"R7": "order: open → install clone → start; settle → continue; the installed table comes from an open step that returned nil on every path, and a successful open step is never abandoned without installing and starting; no known-nil error returned",
+			"R7": "order: open → install clone → start; settle → continue; the installed table comes from an open step that returned nil on every path, and a successful open step is never abandoned without installing and starting; no known-nil error returned; the clone is complete: every field of every repository struct reachable from Table is exported with a distinct, non-excluded JSON name, and Clone is Marshal(receiver) → Unmarshal into a fresh Table",
 		},
 		Assumptions: []string{"external pause/close requests are outside 'left to itself'"},
 		Run:         checkC07,
@@ -72,6 +72,7 @@ func (p *Prog) lifecycle() *lifecycle {
 
 func checkC07(c *Ctx) {
 	p := c.P
+	checkCloneCompleteness(c, "R7")
 	checkCloseRecords(c, "R5")
 	checkNoKnownNilErrorReturn(c, "R7", func(f *ssa.Function) bool { return inPkg(p, f, "") && f.Parent() == nil }, 20)
 	lc := p.lifecycle()
